@@ -9,7 +9,7 @@
    later request until the step yields (the implementation check covers <= 3 requests at every boundary; the
    two known findings D8 / D3b are exactly the cases where it does not). *)
 From Coq Require Import List String Bool.
-From Plumpy Require Import Val Mon PortModel Model Run LifePath LifeBook LifeSx LifeFx LifeAgree LifePtr LifeKill.
+From Plumpy Require Import Val Mon PortModel Model Run LifePath LifeBook LifeSx LifeFx LifeAgree LifePtr LifeKill LifeArmed.
 Import ListNotations.
 
 (* kill() requested between any two loop callbacks of any run returns a result, never an exception *)
@@ -65,6 +65,20 @@ Theorem C04_nothing_pending_between_steps :
     intr w = None /\ pausing w = None /\ killing w = None.
 Proof. exact nothing_pending_between_steps. Qed.
 Print Assumptions C04_nothing_pending_between_steps.
+
+(* "whatever other control requests arrive after it": in every reachable world in which a kill is pending (`_killing` = action a),
+   every event other than the stepping task's own callback — pause, play, resume, a further kill, fail (from outside, and whatever
+   listeners do in reaction), cancellation of the future, late callbacks (also failing ones), the completion of awaited futures —
+   leaves `_killing` at a, and a is still THE armed, pending kill action of a step in flight.  finish_step then runs it when the
+   step yields (C04_kill_during_step), unless the step failed.  Proof: Life/LifeArmed.v. *)
+Theorem C04_armed_kill_survives :
+  forall c es w a e,
+    run c es = Some w -> killing w = Some a -> not_the_stepping_task w e = true ->
+    let w' := env_step w e in
+    killing w' = Some a /\ intr w' = Some a /\ stepping w' = true /\
+    exists ac, get_act w' a = Some ac /\ a_fut ac = AfPending /\ is_kill (a_kind ac) = true.
+Proof. exact armed_kill_survives. Qed.
+Print Assumptions C04_armed_kill_survives.
 
 (* a kill() made between two steps of ANY reachable live process (any program, listener scripts, callbacks, any schedule
    before it; hooks that do not raise) is carried out at once: it answers True, the process is KILLED with the kill text, its
